@@ -28,6 +28,7 @@ Important requirements:
 - Do not change any *_test.go file or testdata of the repository as part of the breaking change. Only library source (Go files or the embedded normalizations.yaml).
 - Keep the change small (a few lines).
 - Environment: no network. Every shell command needs: export GOFLAGS=-mod=mod GOPROXY=off GOSUMDB=off GOTOOLCHAIN=local . Run the existing suite with: cd {wt} && go test -vet=off -count=1 ./...   (all packages must say ok). Some tests talk to the real kernel audit subsystem as root; that is expected. Other people run the same suite on this machine at the same time, so if a kernel-facing test in the root package fails once for a reason unrelated to your change, re-run it.
+- Do NOT use `git stash` (the stash is shared between all worktrees of the repository, and other people work in sibling worktrees): to test without your change use `git diff > /tmp/your.diff; git apply -R /tmp/your.diff` and `git apply /tmp/your.diff` to restore it.
 - If `go test` rewrites go.sum or go.mod, restore them (git checkout go.sum go.mod) — they must not be part of the patch.
 - The repository has a build tag `verif` (files verif_yield_on.go / verif_yield_off.go and calls to verifYield in reassembler.go). Leave those alone; the code must also compile with `go build -tags verif ./...`.
 
